@@ -41,6 +41,7 @@ func main() {
 	extractArchiver()
 	extractPipeline()
 	extractRateProg()
+	extractDiskProg()
 
 	all := map[string]any{}
 	var missing []string
